@@ -186,15 +186,16 @@ impl HybridConversionInfo {
     }
 
     /// ## Errors
-    /// If deserialization fails.
-    /// ## Panics
-    /// If not enough delimiters are found in the input bytes.
+    /// If deserialization fails: the domain delimiter is missing, the domain is not valid UTF-8,
+    /// or the number of bytes after the delimiter is not what the fixed-size fields require.
     pub fn from_bytes(bytes: &[u8]) -> Result<Self, InvalidHybridReportError> {
         let mut pos = 0;
-        let delimiter_pos = bytes[pos..]
-            .iter()
-            .position(|&b| b == 0)
-            .unwrap_or_else(|| panic!("not enough delimiters for HybridConversionInfo"));
+        let Some(delimiter_pos) = bytes[pos..].iter().position(|&b| b == 0) else {
+            return Err(InvalidHybridReportError::DeserializationError(
+                "HybridConversionInfo: conversion_site_domain",
+                "missing delimiter".into(),
+            ));
+        };
         let conversion_site_domain = String::from_utf8(bytes[pos..pos + delimiter_pos].to_vec())
             .map_err(|e| {
                 InvalidHybridReportError::DeserializationError(
@@ -203,7 +204,12 @@ impl HybridConversionInfo {
                 )
             })?;
         pos += delimiter_pos + 1;
-        debug_assert!(pos + 3*8 + 1 == bytes.len(), "{}", format!("bytes for HybridConversionInfo::from_bytes has incorrect length. Expected: {}, Actual: {}", pos + 3*8 + 1, bytes.len()).to_string());
+        if pos + 3 * 8 + 1 != bytes.len() {
+            return Err(InvalidHybridReportError::Length(
+                bytes.len(),
+                pos + 3 * 8 + 1,
+            ));
+        }
 
         let key_id = bytes[pos];
         pos += 1;
